@@ -308,6 +308,10 @@ static void make_user (int kind)
   ip->snoop_on = 0;
   ip->snoop_by = 0;
   ip->last_time = current_time;
+#ifdef TRACE
+  ip->trace_level = 0;
+  ip->trace_prefix = 0;
+#endif
 #ifdef OLD_ED
   ip->ed_buffer = 0;
 #endif
